@@ -86,6 +86,13 @@ def step(rig: PairRig, e: t.Dict[str, t.Any]) -> t.List[t.Tuple[str, str, str]]:
             for prop in ("C09" if side == "c" else "C10", "C11"):
                 diffs.append((prop, f"queued-message/{op}/{call['k']}", f"{op} {call['k']} id={call['id']} queued {[(proj.kind_of(v), v.message_id) for v in vals]} (the message the call sends is not what reaches the stream)"))
             return diffs
+        want_code = obs.get("intent", {}).get("code")
+        if want_code is not None and hasattr(vals[0], "result"):
+            got_code = int(getattr(vals[0].result.result_code, "value", vals[0].result.result_code))
+            if got_code != want_code:
+                for prop in ("C11", "C03"):
+                    diffs.append((prop, f"queued-value/{op}/{call['k']}", f"{op} {call['k']} was called with result code {want_code}; the message queued for the peer carries {got_code}"))
+                return diffs
         (rig.cob if side == "c" else rig.sob).extend(rig.split(new))
         (rig.c_sent if side == "c" else rig.s_sent).append(proj.to_abstract(vals[0]))
     elif op in ("cdrain", "sdrain"):
